@@ -1,2 +1,3 @@
 pub mod adapter;
+pub mod modeb;
 pub mod sim;
